@@ -376,6 +376,11 @@ func c10R5(e *Engine) {
 				}
 			}
 		}
+		if fn == nil && spec.role != "core" {
+			// an adapter without a shallow-copy helper: what it hands out comes from its converting mappers (C14.R3)
+			e.ob("R5", spec.role+": item copy function", "-", Pass, false, "the %s adapter has no item copy helper; its outputs are judged where they are built (C14.R3)", spec.role)
+			continue
+		}
 		if !e.anchor("R5", spec.role+": item copy function", fn == nil) {
 			continue
 		}
